@@ -237,3 +237,52 @@ Print Assumptions C15_trace_connection_independence.
 Print Assumptions C15_trace_connection_independence_refuted.
 Print Assumptions C15_trace_close_sending_connection.
 Print Assumptions C15_one_connection_suffices.
+
+(* ---- trace level (package R): with another connection to the peer, closing any one connection at any point of any history never loses a wantlist
+   silently: the per-peer record is untouched, the close produces no output, and if a request was outstanding on the closed connection the next wantlist
+   is full over a remaining one.  Observation in theorem form: if the closed connection HAD acknowledged and its Failed report never arrives, the peer is
+   never sent anything again although it keeps other connections (F12 seen from C15; libp2p delivers the handler's poll_close reports before the close). *)
+From BS Require Import Types Wantlist Wantlist_proofs Client Client_proofs Client_proofs4 Corr_client
+                       Client_proofs20 Client_proofs21 Client_proofs22 Client_proofs23 Client_props4.
+From Coq Require Import ZArith List. Import ListNotations.
+Open Scope N_scope.
+
+Theorem C15_trace_close_keeps_exchange :
+  forall (sdh : bool) (ops : list cop) (p : peer) (c : conn) (ps : peer_state) (c2 : conn),
+  let s := st_after sdh ops in
+  let s' := st_after sdh (ops ++ [CConnClosed p c]) in
+  al_find N.eqb p (cs_peers s) = Some ps ->
+  In c2 (p_conns ps) ->
+  c2 <> c ->
+  al_find N.eqb p (cs_peers s') =
+  Some
+    {| p_conns := n_remove c (p_conns ps); p_ss := p_ss ps; p_wl := p_wl ps; p_send_full := p_send_full ps |} /\
+  snd (cstep s (CConnClosed p c)) = [] /\
+  (forall t : time,
+   p_ss ps = SsRequested t c ->
+   (forall (d : list cop) (ch' : list (peer * conn)) (c' : conn) (f' : bool) (es' : list gen_entry),
+    quiet p c s' d ->
+    In (OSendWantlist p c' f' es') (snd (c_poll (st_after sdh ((ops ++ [CConnClosed p c]) ++ d)) ch')) ->
+    f' = true /\ c' <> c) /\
+   (forall (ms : N) (ch' : list (peer * conn)),
+    (cs_now s + ms - t <? RECEIVE_REQUEST_TIMEOUT) = false ->
+    exists (c' : conn) (es' : list gen_entry),
+      In (OSendWantlist p c' true es')
+        (snd (c_poll (st_after sdh ((ops ++ [CConnClosed p c]) ++ [CAdvance ms])) ch')) /\
+      c' <> c /\ In c' (p_conns ps))) /\
+  (p_ss ps = SsFailed c ->
+   forall ch' : list (peer * conn),
+   exists (c' : conn) (es' : list gen_entry),
+     In (OSendWantlist p c' true es') (snd (c_poll s' ch')) /\ c' <> c /\ In c' (p_conns ps)).
+Proof. exact (@Client_props4.C15_trace_close_keeps_exchange). Qed.
+
+Theorem C15_trace_close_acked_starves :
+  forall (sdh : bool) (p : peer) (c : conn) (d pre : list cop) (ch' : list (peer * conn)) 
+    (c' : conn) (f' : bool) (es' : list gen_entry),
+  acked_on p c (st_after sdh pre) ->
+  no_report_alive p c (st_after sdh pre) d ->
+  ~ In (OSendWantlist p c' f' es') (snd (c_poll (st_after sdh (pre ++ d)) ch')).
+Proof. exact (@Client_props4.C15_trace_close_acked_starves). Qed.
+
+Print Assumptions C15_trace_close_keeps_exchange.
+Print Assumptions C15_trace_close_acked_starves.
